@@ -70,6 +70,27 @@ func c05Predicate(d *simnet.Datagram, req ntp.Packet, srv netip.Addr, nts bool, 
 	return true, ""
 }
 
+// c05Provenance checks where the server receive timestamp t1 of a reported offset comes
+// from: "only on the basis of a datagram that ..." - for a basic response the accepted
+// datagram itself, for an interleaved one the datagram the previous successful measurement
+// accepted. State left behind by a datagram that was rejected must not enter a measurement.
+// prevRx is the receive timestamp field of the previously accepted response (zero: none).
+func c05Provenance(req, resp ntp.Packet, ts [4]time.Time, prevRx ntp.Time64) string {
+	ilReq := req.ReceiveTime != req.TransmitTime && (req.OriginTime != ntp.Time64{} || req.ReceiveTime != ntp.Time64{})
+	want := resp.ReceiveTime
+	what := "the accepted response's receive timestamp"
+	if ilReq && resp.OriginTime == req.ReceiveTime && resp.OriginTime != req.TransmitTime {
+		if prevRx == (ntp.Time64{}) {
+			return ""
+		}
+		want, what = prevRx, "the receive timestamp of the response the previous successful measurement accepted"
+	}
+	if d := absDur(ts[1].Sub(ntp.TimeFromTime64(want, ts[1]))); d > 2*time.Nanosecond {
+		return fmt.Sprintf("t1 of the reported offset is %v away from %s", d, what)
+	}
+	return ""
+}
+
 func c05World(t *testing.T, r *simcore.Run) any {
 	if r.Index%4 == 3 {
 		return c05SCIONWorld(r)
@@ -255,6 +276,7 @@ func c05World(t *testing.T, r *simcore.Run) any {
 		}
 	}
 	seenCalls := 0
+	var prevAcceptedRx ntp.Time64
 	ok, rejected, acceptedAttack, evaluated := 0, 0, 0, 0
 	var samples []string
 	w.net.OnClose = func(c *simnet.UDPConn) {
@@ -290,6 +312,14 @@ func c05World(t *testing.T, r *simcore.Run) any {
 		} else if !good {
 			r.Fail("C05", "accepted/invalid-genuine", "accepted datagram %d fails the predicate: %s", last.ID, why)
 			return
+		}
+		if resp, ok := decodeNTP(last.Payload); ok {
+			if why := c05Provenance(req, resp, filter.calls[len(filter.calls)-1], prevAcceptedRx); why != "" {
+				r.Fail("C05", "provenance/t1", "%s", why)
+				return
+			}
+			prevAcceptedRx = resp.ReceiveTime
+			r.Probe("provenance-checked")
 		}
 	}
 	w.goSafe("driver", func() {
